@@ -58,3 +58,37 @@ pub fn split_points(w: &World, len: usize, max_pieces: usize) -> Vec<usize> {
     }
     lens
 }
+
+/// A per-run "magic size": a boundary value (2^k-1, 2^k, 2^k+1, or a round decimal / customary
+/// width) that several size knobs of the same run may adopt together — line wrap, buffer
+/// capacity, chunk size, sequence or field length — so that coincidences such as "line exactly as
+/// long as the buffer" or "wrap width 256 with a sequence of at least 256" are reached on purpose
+/// rather than by luck. `max_pow` bounds k.
+pub fn magic_size(w: &World, max_pow: u64) -> usize {
+    match w.draw(8) {
+        0 => *w.pick(&[60usize, 70, 80, 100, 10, 1000, 10_000, 255, 50]),
+        _ => {
+            // small powers most of the time
+            let k = if w.chance(5, 6) { w.draw(max_pow.min(12) + 1) } else { w.draw(max_pow + 1) };
+            let base = 1usize << k;
+            match w.draw(3) {
+                0 => base,
+                1 => base + 1,
+                _ => base.saturating_sub(1).max(1),
+            }
+        }
+    }
+}
+
+/// A length near a magic size m: m-1, m, m+1, 2m, or k*m + r.
+pub fn near_magic(w: &World, m: usize, cap: usize) -> usize {
+    let v = match w.draw(6) {
+        0 => m,
+        1 => m + 1,
+        2 => m.saturating_sub(1),
+        3 => 2 * m,
+        4 => 2 * m + 1,
+        _ => m * (1 + w.draw(3) as usize) + w.draw(m as u64 + 1) as usize,
+    };
+    v.clamp(1, cap)
+}
